@@ -56,7 +56,11 @@ RULE = ("generated projects: 1-5 TOML files (includes, nested includes, diamond 
         "variable bound differently in parent, child and sibling top-level files and used in "
         "their rules; twin rules differing only in a trailing `*` / `**` (both orders, different "
         "tests); include / exclude paths spelled with `.` and `..` segments; runs with 2-3 "
-        "top-level projects sharing one parser env dict, one including what another excludes; every project "
+        "top-level projects sharing one parser env dict, one including what another excludes; "
+        "include chains of depth 2-3 and diamonds (two children including one grandchild) with "
+        "rules in the innermost file, every fourth project built through the ProjectConfig API; "
+        "rules whose pattern starts with a wildcard (`*.ftl`, `**/en/x.ftl`, `*-{locale}.ftl`: "
+        "prefix = root); every project "
         "locale + foreign + None (+ merge base); a case is distinct by (project text, tree, "
         "locale, merge); non-trivial = at least one rule enabled for the locale")
 
@@ -151,6 +155,7 @@ class Proj:
                            "missing": sorted(getattr(self, "missing", [])),
                            "tops": [c.rel for c in self.top_cfgs()],
                            "aliases": getattr(self, "aliases", []),
+                           "unrooted": [c.rel for c in self.cfgs.values() if getattr(c, "unrooted", False)],
                            "kind": self.kind, "flags": sorted(self.flags)})
 
     def top_cfgs(self):
@@ -183,6 +188,7 @@ def proj_from_text(text):
                     c.spell[r] = x["path"]
         if (c.basepath or "").endswith("alt"):
             c.root_rel = "alt/"
+        c.unrooted = rel in d.get("unrooted", [])
         p.cfgs[rel] = c
         locs.update(c.locales or [])
         if p.top is None:
@@ -321,12 +327,32 @@ def gen_project(rng, kind="main", spelled=None):
     incs = [n for n in names[:3]]
     rng.shuffle(incs)
     children = []
-    for rel in incs[:max(0, min(nfiles - 1, rng.randint(0, 3)))]:
-        c = new_child(rel)
-        children.append(c)
-        parent = top if (not children[:-1] or rng.random() < 0.6) else rng.choice(children[:-1])
-        parent.includes.append(ref_text(parent, rel))
-    if len(children) >= 2 and rng.random() < 0.25:
+    leaf = None
+    shape = "random" if spelled == "updir" else rng.choice(["random"] * 4 + ["chain", "chain", "diamond"])
+    if shape == "chain":
+        # root includes mid includes leaf (includes leaf2): the rules of the innermost file count
+        parent = top
+        for rel in incs[:rng.choice([2, 2, 3])]:
+            c = new_child(rel)
+            children.append(c)
+            parent.includes.append(rel)
+            parent = c
+        leaf = children[-1]
+    elif shape == "diamond":
+        # two children include the same grandchild, which the root does not name
+        a, b, leaf = (new_child(rel) for rel in incs)
+        children += [a, b, leaf]
+        top.includes += [a.rel, b.rel]
+        a.includes.append(leaf.rel)
+        b.includes.append(leaf.rel)
+    else:
+        for rel in incs[:max(0, min(nfiles - 1, rng.randint(0, 3)))]:
+            c = new_child(rel)
+            children.append(c)
+            parent = top if (not children[:-1] or rng.random() < 0.6) else rng.choice(children[:-1])
+            parent.includes.append(ref_text(parent, rel))
+    p.shape = shape
+    if shape == "random" and len(children) >= 2 and rng.random() < 0.25:
         # diamond: a second path to an included file
         a, b = children[0], children[-1]
         if b.rel not in a.includes and a.rel not in b.includes and a is not b:
@@ -365,6 +391,9 @@ def gen_project(rng, kind="main", spelled=None):
                     r.l10n = r.l10n[:-2] + "sub/**"
                     if r.ref is not None:
                         r.ref = r.ref[:-2] + "sub/**"
+    if leaf is not None and len(leaf.rules) < 2:
+        cl = [b for b in lbases if all(v in leaf.env or v in penv for v in re.findall(r"\{(\w+)\}", b))]
+        leaf.rules.append(gen_rule(rng, p, leaf, mods, cl, refbase))
     allrules = [(c, r) for c in p.cfgs.values() for r in c.rules]
     # duplicates: same l10n text again, in the same or another file; sometimes with another
     # reference (RuntimeError) or without one (dropped silently or AttributeError)
@@ -534,6 +563,53 @@ def gen_quirk_dedup_env(rng):
     return p
 
 
+def gen_quirk_rooted_wildcard(rng):
+    """a rule of a TOML file (always rooted) whose pattern STARTS with a wildcard"""
+    p = Proj()
+    p.kind = "rooted-wildcard-start"
+    p.locales = ["de"]
+    top = Cfg("l10n.toml", ".")
+    top.locales = ["de"]
+    z = rng.randrange(3)
+    if z == 0:
+        top.rules.append(Rule("en-*.ftl", "*-{locale}.ftl"))
+        p.files = ["en-a.ftl", "en-b.ftl", "a-de.ftl", "c-de.ftl"]
+    elif z == 1:
+        top.rules.append(Rule("browser/en/*.ftl", "*.{locale}.ftl"))
+        p.files = ["browser/en/a.ftl", "a.de.ftl"]
+    else:
+        top.rules.append(Rule("**/en/rootw.ftl", "**/{locale}/rootw.ftl"))
+        p.files = ["browser/en/rootw.ftl", "deep/er/en/rootw.ftl", "browser/de/rootw.ftl"]
+    p.top = top
+    p.cfgs[top.rel] = top
+    return p
+
+
+def gen_unrooted(rng):
+    """a ProjectConfig(None) (no root, API only): l10n patterns that start with a wildcard have
+    the prefix "", nothing is walked on the l10n side; the reference side is absolute"""
+    p = Proj()
+    p.kind = "unrooted"
+    p.locales = sorted(rng.sample(LOCALES, rng.randint(1, 2)))
+    mod = rng.choice(MODS)
+    top = Cfg("none.toml", None)
+    top.unrooted = True
+    top.locales = list(p.locales)
+    top.env = {"r": "{T}/p/" + mod}
+    # (only `*`: a leading `**` also matches absolute paths, which a walk from "" never reaches)
+    for l10n, ref in rng.sample([("*.ftl", "{r}/en/*.ftl"), ("*", "{r}/en/sub/*"),
+                                 ("*-{locale}.properties", "{r}/en/*.properties"),
+                                 ("*.{locale}.txt", "{r}/en/*.txt")], rng.randint(1, 3)):
+        top.rules.append(Rule(ref, l10n, None, rng.choice([None, ["extra"]])))
+    p.top = top
+    p.cfgs[top.rel] = top
+    names = ["a.ftl", "b.ftl", "c.properties", "foo/x.ftl", "sub/foo/y.ftl", "sub/deep/foo/z.txt",
+             "sub/b.ftl", "z.txt"]
+    p.files = sorted({"%s/en/%s" % (mod, n) for n in rng.sample(names, rng.randint(3, 7))}
+                     | {"l10n/%s/%s/a.ftl" % (p.locales[0], mod)})
+    return p
+
+
 def gen_quirk_exclude_l10n_only(rng):
     """an excluded file whose rule has no reference side: the reference walk of the main
     rule still produces the excluded l10n path"""
@@ -577,7 +653,8 @@ def write_tree(p, T):
         path = os.path.join(pd, rel)
         os.makedirs(os.path.dirname(path), exist_ok=True)
         with open(path, "w") as f:
-            f.write(L10N_CONTENT if "/en/" not in rel and "values/" not in rel else REF_CONTENT)
+            is_ref = "/en/" in rel or "values/" in rel or rel.startswith(("top", "en-"))
+            f.write(REF_CONTENT if is_ref else L10N_CONTENT)
     return pd
 
 
@@ -673,6 +750,10 @@ class Oracle:
                         out.append(s2)
         return out
 
+    def root_of(self, c):
+        """the root its patterns are relative to; "" for a ProjectConfig(None) (no root)"""
+        return "" if getattr(c, "unrooted", False) else self.pd + c.root_rel
+
     def flatten(self, c, seen):
         """configs in inclusion order, each file once"""
         if c.rel in seen:
@@ -710,7 +791,7 @@ class Oracle:
     def matchers(self, c, r, locale):
         from compare_locales.paths import Matcher, REFERENCE_LOCALE
         env = self.env_of(c)
-        root = self.pd + c.root_rel
+        root = self.root_of(c) or None
         lm = Matcher(r.l10n, env=dict(env, locale=locale or REFERENCE_LOCALE), root=root)
         rm = Matcher(r.ref, env=env, root=root) if r.ref is not None else None
         return lm, rm
@@ -718,7 +799,7 @@ class Oracle:
     def resolved_prefix(self, c, text, locale):
         """the text before the first wildcard, resolved: what Matcher.prefix must be"""
         from compare_locales.paths import REFERENCE_LOCALE
-        return render(self.pd + c.root_rel, text.split("*")[0],
+        return render(self.root_of(c), text.split("*")[0],
                       dict(self.env_of(c), locale=locale or REFERENCE_LOCALE), {})
 
     def rule_key(self, c, r, locale):
@@ -798,7 +879,7 @@ class Oracle:
         def pair(i, fills, refpath):
             c, r = rules[i]
             env = self.env_of(c)
-            root = self.pd + c.root_rel
+            root = self.root_of(c)
             merge = None
             if mergebase is not None:
                 merge = render(root, r.l10n, dict(env, locale=locale, l10n_base=mergebase), fills)
@@ -823,7 +904,7 @@ class Oracle:
                 fills = ms[i][0].match(f)
                 ref = None
                 if r.ref is not None:
-                    ref = render(self.pd + c.root_rel, r.ref, self.env_of(c), fills)
+                    ref = render(self.root_of(c), r.ref, self.env_of(c), fills)
                 rf, mg, ts = pair(i, fills, ref)
                 exp[f] = dict(kind="l10n", ref=rf, merge=mg, tests=ts)
         for f in fs:
@@ -837,7 +918,7 @@ class Oracle:
                 if fills is None:
                     continue
                 c, r = rules[i]
-                lp = render(self.pd + c.root_rel, r.l10n,
+                lp = render(self.root_of(c), r.l10n,
                             dict(self.env_of(c), locale=locale), fills)
                 if is_excluded(lp):
                     # the localized path belongs to an excluded configuration
@@ -918,13 +999,47 @@ class Strs:
 
 def all_nodes(cfg):
     """every ProjectConfig object reachable from the parsed top (configs + excludes' configs)"""
-    out = list(cfg.configs)
-    for x in cfg.excludes:
-        out += list(x.configs)
+    # walked here over .children / .excludes, not through ProjectConfig.configs: the data the
+    # model gets must not depend on the code under test
+    out, stack = [], [cfg]
+    while stack:
+        n = stack.pop()
+        out.append(n)
+        stack += list(n.children) + list(n.excludes)
     return out
 
 
-def run_one(chk, p, T, locales_to_run, stats):
+def build_api(p, pd, T, penv):
+    """the projects built with the ProjectConfig API (set_root, add_environment, add_paths,
+    add_child, exclude, set_locales) in the order TOMLParser uses, a fresh object per inclusion"""
+    from compare_locales import mozpath
+    from compare_locales.paths import ProjectConfig
+
+    def mk(c):
+        pc = ProjectConfig(None if getattr(c, "unrooted", False) else mozpath.join(pd, c.rel))
+        pc.set_root(c.basepath if c.basepath is not None else ".")
+        pc.add_environment(**{k: v.replace("{T}", T) for k, v in c.env.items()})
+        pc.add_environment(**penv)
+        for r in c.rules:
+            d = {"l10n": r.l10n}
+            if r.locales is not None:
+                d["locales"] = r.locales
+            if r.ref is not None:
+                d["reference"] = r.ref
+            if r.tests is not None:
+                d["test"] = r.tests
+            pc.add_paths(d)
+        for inc in c.includes:
+            pc.add_child(mk(p.cfgs[inc]))
+        for exc in c.excludes:
+            pc.exclude(mk(p.cfgs[exc]))
+        if c.locales is not None:
+            pc.set_locales(c.locales)
+        return pc
+    return [mk(top) for top in p.top_cfgs()]
+
+
+def run_one(chk, p, T, locales_to_run, stats, api=False):
     """materialise p, run the implementation, the oracle, and return (requests, impl outputs, descriptions)"""
     from compare_locales import mozpath
     from compare_locales.paths import TOMLParser, ProjectFiles, REFERENCE_LOCALE, File
@@ -935,7 +1050,10 @@ def run_one(chk, p, T, locales_to_run, stats):
     # one env dict for every top-level file, as the command line does; the oracle keeps its own
     shared_env = dict(penv)
     try:
-        cfgs = [TOMLParser().parse(mozpath.join(pd, top.rel), env=shared_env) for top in p.top_cfgs()]
+        if api:
+            cfgs = build_api(p, pd, T, penv)
+        else:
+            cfgs = [TOMLParser().parse(mozpath.join(pd, top.rel), env=shared_env) for top in p.top_cfgs()]
     except Exception as e:  # noqa
         chk.fail("toml-parse-raised", {"project": p.text()}, repr(e))
         return [], [], []
@@ -948,7 +1066,7 @@ def run_one(chk, p, T, locales_to_run, stats):
     reqs, impls, descs = [], [], []
     for locale, merge in locales_to_run:
         mb = mergebase if merge else None
-        desc = {"project": p.text(), "locale": locale, "merge": merge, "kind": p.kind}
+        desc = {"project": p.text(), "locale": locale, "merge": merge, "kind": p.kind, "api": api}
         chk.count((p.text(), locale, merge))
         # -------- implementation ------------------------------------------------
         built = guarded(lambda: ProjectFiles(locale, cfgs, mergebase=mb))
@@ -964,7 +1082,7 @@ def run_one(chk, p, T, locales_to_run, stats):
                     walked.append(paths["reference"])
             mfs = visible_files(fs, walked)
         except Exception as e:  # noqa
-            chk.fail("matcher-table-raised", desc, repr(e))
+            chk.fail(("" if p.kind == "main" else p.kind + ":") + "matcher-table-raised", desc, repr(e))
             continue
         queries = list(mfs)
         if enum is not None and enum[0] == 0:
@@ -1017,7 +1135,7 @@ def run_one(chk, p, T, locales_to_run, stats):
                                 lst.append([S(q), S(r)])
                     subrows.append([ia, ib, lst])
         except Exception as e:  # noqa
-            chk.fail("matcher-table-raised", desc, repr(e))
+            chk.fail(("" if p.kind == "main" else p.kind + ":") + "matcher-table-raised", desc, repr(e))
             continue
         ridx = {id(paths): k for k, paths in enumerate(rules)}
         refidx = {id(paths["reference"]): 4 * k + 2 for k, paths in enumerate(rules)
@@ -1027,7 +1145,7 @@ def run_one(chk, p, T, locales_to_run, stats):
             return [] if l is None else [[S(x) for x in l]]
 
         def node_sx(n):
-            return [S(n.path), olocs(n.locales),
+            return [S(n.path or ""), olocs(n.locales),
                     [[4 * ridx[id(pt)], opt(4 * ridx[id(pt)] + 2 if "reference" in pt else None),
                       tests_ids(pt.get("test", [])), olocs(pt.get("locales"))] for pt in n.paths],
                     [node_sx(ch) for ch in n.children]]
@@ -1393,10 +1511,13 @@ def run(chk, runner_ok):
                 todo.append((None, True))
             if "empty-locale" in p.flags:
                 todo.append(("", False))
-            a, b, c = run_one(chk, p, T, todo, stats)
+            # every fourth project is built with the ProjectConfig API instead of the parser
+            a, b, c = run_one(chk, p, T, todo, stats, api=(i % 4 == 3))
             reqs += a
             impls += b
             descs += c
+            chk.hist("include_shape", p.shape)
+            chk.hist("built_by", "api" if i % 4 == 3 else "toml")
             chk.hist("toml_files", len(p.cfgs))
             chk.hist("flags", ",".join(sorted(p.flags)) or "-")
             if model and len(reqs) >= 400:
@@ -1430,7 +1551,17 @@ def run(chk, runner_ok):
         if model:
             flush(chk, model, "PROJECT-multi", reqs, impls, descs, final=True)
         # ---- the two quirks, in streams of their own ------------------------------------
-        for gen in (gen_quirk_prefix_file, gen_quirk_dedup_env, gen_quirk_exclude_l10n_only):
+        # ---- no root: patterns that start with a wildcard (prefix "") ---------------------------
+        for i in range(chk.n(40, 400)):
+            p = gen_unrooted(rng)
+            a, b, c = run_one(chk, p, T, [(l, False) for l in p.locales] + [(None, False)], stats, api=True)
+            reqs += a
+            impls += b
+            descs += c
+        if model:
+            flush(chk, model, "PROJECT-unrooted", reqs, impls, descs, final=True)
+        for gen in (gen_quirk_prefix_file, gen_quirk_dedup_env, gen_quirk_exclude_l10n_only,
+                    gen_quirk_rooted_wildcard):
             for i in range(chk.n(3, 12)):
                 p = gen(rng)
                 a, b, c = run_one(chk, p, T, [("de", False), (None, False)], stats)
@@ -1518,7 +1649,8 @@ def replay(chk, path):
                 r, o, d = run_toml(chk, p, T, c["ignore_missing"], {})
                 reqs, impls = [r], [canon_strings(o)]
             else:
-                reqs, impls, _ = run_one(chk, p, T, [(c.get("locale"), bool(c.get("merge")))], {})
+                reqs, impls, _ = run_one(chk, p, T, [(c.get("locale"), bool(c.get("merge")))], {},
+                                         api=bool(c.get("api")))
             after = len(chk.failures) + sum(v["n"] for v in chk.known_seen.values())
             dis = 0
             if model and reqs:
